@@ -357,6 +357,14 @@ func (x *Exec) execBuiltin(fr *Frame, st *State, name string, cc *ssa.CallCommon
 			}
 			l := fresh("chan.len", sortInt)
 			x.assume(st, mkAnd(mkLe(mkInt(0), l), mkLe(l, c)))
+			if key := x.chanKey(cc.Args[0]); key != "" && x.env.con.SoleConsumer[key] != "" && x.env.con.SoleConsumer[key] == strings.SplitN(x.topKey(), "$", 2)[0] {
+				// only this function receives from the channel, so a length it has observed is a
+				// lower bound until its own next receive (others can only add): ghost chanmin
+				h := st.H("ghost:chanmin", arraySort(sortInt, sortInt))
+				old := mkSelect(h, ch)
+				x.assume(st, mkLe(old, l))
+				st.setH("ghost:chanmin", mkStore(h, ch, l))
+			}
 			return l
 		}
 		x.unsup("%s of %v", name, t)
